@@ -28,6 +28,7 @@ type concArg struct {
 	NoLin    bool       `json:"nolin,omitempty"`    // C14 race build: skip the oracles that are not needed
 	NShard   uint64     `json:"nshard,omitempty"`   // lockmap.NSHARD for this run (0: the scaled default 13)
 	ImplFail bool       `json:"implfail,omitempty"` // full disk: NOSPC is an accepted outcome of a request (no effect)
+	Prefer   string     `json:"prefer,omitempty"`   // the calling check's property: its own oracle's verdict on the final state is reported first
 }
 
 type concIn struct {
@@ -225,6 +226,14 @@ func concHarness(raw json.RawMessage, cfg vrt.Config) (vrt.Result, Outcome) {
 	}
 	if a.NoLin {
 		return res, outc
+	}
+	// (the structural / reclaim / cache oracles of the final state belong to other properties than the linearizability
+	// of the history: a check that runs the harnesses for its own property gets that verdict first)
+	for _, pv := range post {
+		if a.Prefer != "" && pv.Property == a.Prefer {
+			outc.Viol = pv
+			return res, outc
+		}
 	}
 	if ok, _ := lin.Check(linFS{model0, probe}, hist); !ok {
 		var lines []string
